@@ -194,7 +194,8 @@ def make_graph(rng, quick, hostile=False, clash=False, shape=None, extra=None, s
                 k = (V, "i", str(7300 + j)); g.nodes[k] = dict(cls="UAObject", bname=(V, "Spoke%d" % j), display="Spoke%d" % j, desc=None, attrs={}, value=None); g.order.append(k); mineV = [k]
                 g.refs.append(((UA, "i", "85"), k, (UA, "i", "35")))
             g.refs.append((hub, mineV[0], (UA, "i", "47" if j % 2 else "35")))
-    if shape in (None, "markup-id", "attr-only") and g.uris and rng.random() < 0.6:
+    r_eq = rng.random()
+    if shape in (None, "markup-id", "attr-only") and g.uris:
         # equal-but-distinct values inside ONE namespace (whatever is keyed by == would write one of them twice)
         from opcua_tools import ua_data_types as T_
         NS_ = "http://opcfoundation.org/UA/2008/02/Types.xsd"
@@ -409,7 +410,9 @@ def run(ctx, prop):
             st, G = graphprops.build(paths)
             if G is None: continue
             vseed = rng.randrange(2 ** 31)
-            variant, G = graph_variant(G, random.Random(vseed), *([["as-parsed"]] if shape == "wide" else []))     # (the wide shape depends on the order of the node table)
+            # how the graph is held: as parsed for the wide shape (it depends on the order of the node table); re-labelled and pruned tables at fixed case numbers; random otherwise
+            vkinds = ["as-parsed"] if shape == "wide" else {4: ["relabelled"], 9: ["pruned"], 11: ["permuted"]}.get(ci % 14)
+            variant, G = graph_variant(G, random.Random(vseed), *([vkinds] if vkinds else []))
             tables = graph_tables(G)
             outs = correspondence(ctx, prop, rng, work, reqs, meta, G, tables, g, ci, inc_choices=(True, False) if prop != "C05" else (True,))
             nodes_by_uri = {u: sum(1 for k in g.nodes if k[0] == u) for u in g.uris}
@@ -419,7 +422,7 @@ def run(ctx, prop):
                 causes = write_causes(G, tables, uri, out, inc) - {"model-version-defaulted"}
                 fl = oracle_c06(tables, uri, inc, out) if prop == "C06" else (oracle_c07(uri, out) if prop == "C07" else [])
                 for sig, detail in fl:
-                    ctx.fail(("%s/known:" % prop + "+".join(sorted(causes))) if causes else sig, dict(kind="write", files=files, uri=uri, inc=inc, vseed=vseed, vkinds=["as-parsed"] if shape == "wide" else None), sig + ": " + detail)
+                    ctx.fail(("%s/known:" % prop + "+".join(sorted(causes))) if causes else sig, dict(kind="write", files=files, uri=uri, inc=inc, vseed=vseed, vkinds=vkinds), sig + ": " + detail)
             if prop == "C05":
                 base = [f for f in files if f[0].endswith("Opc.Ua.NodeSet2.xml")]
                 if base:
@@ -429,7 +432,7 @@ def run(ctx, prop):
                     for sig, detail in oracle_c05(work, G, tables, g, base[0]):
                         # a recorded defect absorbs only the kind of failure it explains: the defaulted version shows in the models and nowhere else
                         cs = causes & ({"model-version-defaulted"} if sig == "C05/models" else STRUCTURAL_CAUSES)
-                        ctx.fail(("C05/known:" + "+".join(sorted(cs))) if cs else sig, dict(kind="roundtrip", files=files, vseed=vseed, vkinds=["as-parsed"] if shape == "wide" else None), sig + ": " + detail)
+                        ctx.fail(("C05/known:" + "+".join(sorted(cs))) if cs else sig, dict(kind="roundtrip", files=files, vseed=vseed, vkinds=vkinds), sig + ": " + detail)
                     # the same round trip executed INSIDE the model (write_text for every namespace, then parse_text_files on those texts and the
                     # untouched base document) against the implementation's write-then-parse_xml_files, both reduced to (URI, identifier) level
                     targets = [u for u in G.namespaces[1:] if u != "None"]
